@@ -4,8 +4,9 @@
   * `valuesOfCorrectType` - the clause the CODE implements, literal by literal, each literal looked at in its
     static INPUT CONTEXT (`IView`: expected type of the position and of the enclosing position), computed by
     plain recursion (`IView.enter`), no stacks. Deviation from the specification, stated explicitly (ledger V8):
-    a LIST literal is never checked itself, and its items are checked against the expected type unwrapped down to
-    its NAMED type (`listItemPos`): `[1]` is accepted where `Int` is expected, `[null]` where `[Int!]` is.
+    a LIST literal is never checked itself (`[1]` is accepted where `Int` is expected); its items are checked
+    against the ITEM type of the expected list type (`listItemPos`, `TI.itemOf`; since
+    proposed_fixes/C06-enter-list-value.patch `[null]` is reported where `[Int!]` is expected).
   * `valuesCoercible` - the clause of the specification (every literal argument value is coercible to the
     argument's type, June-2018 §3.9 / §5.6.1) - which the code does NOT implement:
     `Props/C06_values.lean: values_spec_clause_refuted`.
